@@ -758,7 +758,7 @@ def t15_restore_local_names(func, node):
     for tag, i1, i2, j1, j2 in difflib.SequenceMatcher(None, pinned, cur, autojunk=False).get_opcodes():
         if tag == 'replace' and i2 - i1 == j2 - j1:
             for old, new in zip(pinned[i1:i2], cur[j1:j2]):
-                if old not in used and new not in pinned and old not in mapping.values():
+                if old not in used and new not in pinned and old not in mapping.values() and new != '_' and old != '_':
                     mapping[new] = old
     if not mapping:
         return
@@ -1008,6 +1008,7 @@ def normalize_function(model, func):
     """Return a normalised deep copy of ``func.node`` (the original is left untouched)."""
     node = copy.deepcopy(func.node)
     holder = ast.Module(body=[node], type_ignores=[])
+    t15_restore_local_names(func, node)
     func._names_in_use = ({n.id for n in ast.walk(node) if isinstance(n, ast.Name)} | {a.arg for n in ast.walk(node) if isinstance(n, ast.arguments)
                                                                                       for a in n.posonlyargs + n.args + n.kwonlyargs + [x for x in (n.vararg, n.kwarg) if x]}
                           | {n.name for n in ast.walk(node) if isinstance(n, (ast.FunctionDef, ast.ClassDef))})
@@ -1030,7 +1031,6 @@ def normalize_function(model, func):
         block = t6_hoist_else(block)
         return block
 
-    t15_restore_local_names(func, node)
     t12_new_parameters(model, func, node)
     node = _T14(model, func).visit(node)
     node = _T14(model, func).visit(node)      # list(<the generator expression just produced>)
